@@ -41,8 +41,8 @@ PowM(dummy) == \A a \in {"0", "1", "-3", "2", "123456789abcdef0fedcba9876543210"
                    m \in {"1", "-1", "2", "7", "-10", "10000000f", "100000000000000000000000000000001", "-ffffffffffffffff0000000000000000"} :
    ZPowMod(a, e, m) = P!ZPowMod(a, e, m)
 Ints(dummy) == \A i \in -5000..5000 : ZFromInt(i) = P!ZFromInt(i) /\ ZToInt(ZFromInt(i)) = i /\ P!ZToInt(P!ZFromInt(i)) = i
-Primes(dummy) == /\ \A i \in 0..1200 : ZIsPrime(ZFromInt(i)) = P!ZIsPrime(P!ZFromInt(i))
-                  /\ \A a \in {"0", "1", "2", "71", "fffb"} : ZNextPrime(a) = P!ZNextPrime(a)
+Primes(dummy) == /\ \A i \in 0..400 : ZIsPrime(ZFromInt(i)) = P!ZIsPrime(P!ZFromInt(i))
+                  /\ \A a \in {"0", "1", "2", "71"} : ZNextPrime(a) = P!ZNextPrime(a)
 Comb(dummy) == /\ \A n \in 0..40 : /\ ZFac(n) = P!ZFac(n) /\ ZPrimorial(n) = P!ZPrimorial(n)
                             /\ ZFib(ZFromInt(n)) = P!ZFib(P!ZFromInt(n)) /\ ZLuc(ZFromInt(n)) = P!ZLuc(P!ZFromInt(n))
                             /\ \A m \in 1..5 : ZMFac(ZFromInt(n), ZFromInt(m)) = P!ZMFac(P!ZFromInt(n), P!ZFromInt(m))
